@@ -47,7 +47,7 @@ var c07bNative = map[string]func(){"DeferClose": c07b.DeferClose, "DeferDelete":
 
 // runC07Builtins: deferred builtin calls, one function at a time
 func runC07Builtins(ch *sim.Choices, o *Outcome) {
-	parts := strings.Split(c07b.Source, "//---")
+	parts := strings.Split(c07b.Source, "//c07b:section ")
 	header := parts[0]
 	pick := 1 + ch.Stream("gen").Draw(len(parts)-1)
 	for _, part := range parts[pick : pick+1] {
